@@ -89,7 +89,11 @@ func compareSQL(w *core.Worker, s string) (kind, msg string) {
 		}
 		// (iii) fingerprint and per-mode verdict
 		gp := li.VerifSQLPassOn(s, m)
-		wp := refsql.RunPass(s, rm, kw)
+		var hit func(string)
+		if w != nil && len(s) <= 512 {
+			hit = func(rule string) { w.Observe("reference_rules_fired", rule) }
+		}
+		wp := refsql.RunPassTraced(s, rm, kw, hit)
 		if gp.Fingerprint != wp.FP || gp.Blacklisted != wp.Blacklisted || gp.Verdict != wp.Verdict || gp.StatsTokens != wp.NTok || gp.StatsFolds != wp.Folds {
 			return "pass-mismatch", fmt.Sprintf("mode %s: impl fingerprint %q blacklisted=%v verdict=%v tokens=%d folds=%d; ref fingerprint %q blacklisted=%v verdict=%v tokens=%d folds=%d\n ref folded:\n%s", modeName(m),
 				gp.Fingerprint, gp.Blacklisted, gp.Verdict, gp.StatsTokens, gp.StatsFolds, wp.FP, wp.Blacklisted, wp.Verdict, wp.NTok, wp.Folds, dumpRefTokens(wp.V[:wp.NFold]))
